@@ -1,10 +1,11 @@
 (* msgstorage: the message store over the engine.  Definitions only.
 
    ===================== INTERFACE (for the broker and queue models) =====================
-   msg                      { m_id : N; m_data : N; m_ctag : option N }
+   msg                      { m_id : N; m_data : N; m_ctag : option N; m_meta : N; m_expected : N }
                             m_data is an opaque handle of the content (index it into your own
                             table); m_ctag = Some tag iff message.ConfirmMeta != nil (tag =
-                            ConfirmMeta.DeliveryTag).  What the engine holds is `strip m`
+                            ConfirmMeta.DeliveryTag); m_meta identifies the ConfirmMeta OBJECT (copies of one
+                            publish in several queues share it), m_expected = its ExpectedConfirms.  What the engine holds is `strip m`
                             (Marshal stores neither ConfirmMeta nor DeliveryCount).
    msg_key q id             makeKey(id, q)           -- from Store/gen/KeyFmtGen.v
    msg_prefix_* q           the prefix each prefix-scanning method uses
@@ -16,9 +17,13 @@
                               the code holds no lock: swap under persistLock / ProcessBatch / confirm loop)
                             | MPersistTick  (= the three in a row)
                             | MKill  (process dies: only ms_db survives; a transient store is wiped)
-   mevent                   EvBatch ops | EvRelay key m | EvMsgs l n | EvLen n | EvPanic
-                            EvRelay k m : `m.ConfirmMeta.ActualConfirms++` then `confirmSyncCh <- m`
-                            (one event = both; the counter itself lives in the broker model)
+   mevent                   EvBatch ops | EvRelay key m | EvCancelled key | EvMsgs l n | EvLen n | EvPanic
+                            EvRelay k m : storage.confirm(m) whose guard held and whose `ConfirmMeta.Confirm()`
+                            returned true (this call completed the message), then `confirmSyncCh <- m`.
+                            The ActualConfirms counters the store has advanced are ms_counts (meta -> count);
+                            MExtConfirm meta = a Confirm() call made elsewhere (queue.Push's transient branch).
+                            EvCancelled k : GHOST event at the snapshot: the add of k was cancelled by a del of k
+                            (the message was settled before the flush; persist remembers it in `settled`)
    ms_step : mstore -> mlabel -> mstore * list mevent        total; a disabled label stutters
    ms_run  : mstore -> list mlabel -> mstore * list mevent
    ms_recover st q limit    what Queue.LoadFromMsgStorage reads: (messages in key order, queueLength)
@@ -31,9 +36,9 @@ From GMQ Require Import Store.KeyFmt Store.gen.KeyFmtGen Store.gen.OptsGen Store
 Import ListNotations.
 Open Scope N_scope.
 
-Record msg := { m_id : N; m_data : N; m_ctag : option N }.
+Record msg := { m_id : N; m_data : N; m_ctag : option N; m_meta : N; m_expected : N }.
 
-Definition strip (m : msg) : msg := {| m_id := m_id m; m_data := m_data m; m_ctag := None |}.
+Definition strip (m : msg) : msg := {| m_id := m_id m; m_data := m_data m; m_ctag := None; m_meta := 0; m_expected := 0 |}.
 
 (* ---- keys ---- *)
 Definition render_kpart (q : bytes) (id : N) (p : kpart) : bytes :=
@@ -60,7 +65,8 @@ Definition queue_of_key (k : key) : option bytes := split_index queue_from_key k
 (* ---- state ---- *)
 Inductive stage := Swapped | Written.
 (* the maps persist() took out under the lock, after the del-cancels-add pass *)
-Record inflight := { if_stage : stage; if_add : kv msg; if_upd : kv msg; if_del : kv msg }.
+(* if_settled: the adds a del of the same key cancelled (`settled`): never written, still confirmed *)
+Record inflight := { if_stage : stage; if_add : kv msg; if_upd : kv msg; if_del : kv msg; if_settled : kv msg }.
 
 Record mstore := {
   ms_engine : engine;
@@ -68,16 +74,18 @@ Record mstore := {
   ms_confirm : bool;         (* ReceiveConfirms() was called *)
   ms_db : kv msg;            (* the engine, after the last completed Set/Del/batch *)
   ms_add : kv msg; ms_upd : kv msg; ms_del : kv msg;
-  ms_fly : option inflight
+  ms_fly : option inflight;
+  ms_counts : list (N * N)   (* ConfirmMeta object -> ActualConfirms (in-memory objects: lost at Kill) *)
 }.
 
 Definition ms_init (e : engine) (persistent confirm : bool) : mstore :=
   {| ms_engine := e; ms_persistent := persistent; ms_confirm := confirm; ms_db := [];
-     ms_add := []; ms_upd := []; ms_del := []; ms_fly := None |}.
+     ms_add := []; ms_upd := []; ms_del := []; ms_fly := None; ms_counts := [] |}.
 
 Inductive mevent :=
 | EvBatch (ops : list (bop msg))
 | EvRelay (k : key) (m : msg)
+| EvCancelled (k : key)
 | EvMsgs (l : list msg) (n : N)
 | EvLen (n : N)
 | EvPanic.
@@ -86,12 +94,16 @@ Inductive mlabel :=
 | MAdd (m : msg) (q : bytes) | MUpdate (m : msg) (q : bytes) | MDel (m : msg) (q : bytes) | MPurge (q : bytes)
 | MIterFrom (q : bytes) (id limit : N) | MLength (q : bytes) | MIterate (q : bytes) (limit : N) | MRecover (q : bytes) (limit : N)
 | MPersistSwap | MPersistBatch | MPersistConfirm | MPersistTick
+| MExtConfirm (meta : N)
 | MKill.
 
 (* ---- persist ---- *)
 (* for delKey := range del { if add has it { delete(add); rmDel }; delete(update) }; del -= rmDel *)
 Definition cancel_add (add del : kv msg) : kv msg :=
   if persist_del_cancels_add then filter (fun e => negb (kv_mem del (fst e))) add else add.
+(* settled = the adds removed by the pass above *)
+Definition settled_of (add del : kv msg) : kv msg :=
+  if persist_del_cancels_add && persist_settled_confirmed then filter (fun e => kv_mem del (fst e)) add else [].
 Definition cancel_upd (upd del : kv msg) : kv msg :=
   if persist_del_drops_update then filter (fun e => negb (kv_mem del (fst e))) upd else upd.
 Definition cancel_del (add del : kv msg) : kv msg :=
@@ -106,30 +118,61 @@ Definition group_ops (f : inflight) (g : batch_group) : list (bop msg) :=
   end.
 Definition batch_of (f : inflight) : list (bop msg) := flat_map (group_ops f) persist_batch_order.
 
-(* message.ConfirmMeta != nil && storage.confirmMode && DeliveryTag > 0 *)
+(* storage.confirm: message.ConfirmMeta != nil && storage.confirmMode && DeliveryTag > 0, then meta.Confirm():
+   ActualConfirms++ and true iff that made it equal to ExpectedConfirms *)
 Definition wants_relay (confirm : bool) (m : msg) : bool :=
   confirm && match m_ctag m with Some t => 0 <? t | None => false end.
-Definition relays_of (confirm : bool) (add : kv msg) : list mevent :=
-  map (fun e => EvRelay (fst e) (snd e)) (filter (fun e => wants_relay confirm (snd e)) add).
+
+Fixpoint count_of (cs : list (N * N)) (meta : N) : N :=
+  match cs with [] => 0 | (i, n) :: t => if N.eqb i meta then n else count_of t meta end.
+Fixpoint count_set (cs : list (N * N)) (meta n : N) : list (N * N) :=
+  match cs with
+  | [] => [(meta, n)]
+  | (i, x) :: t => if N.eqb i meta then (i, n) :: t else (i, x) :: count_set t meta n
+  end.
+(* Confirm(): new counters and whether this call completed the message *)
+Definition meta_confirm (cs : list (N * N)) (m : msg) : list (N * N) * bool :=
+  let n := count_of cs (m_meta m) + 1 in
+  (count_set cs (m_meta m) n, if persist_confirm_counts then N.eqb n (m_expected m) else true).
+
+Fixpoint confirm_all (confirm : bool) (cs : list (N * N)) (l : kv msg) : list (N * N) * list mevent :=
+  match l with
+  | [] => (cs, [])
+  | (k, m) :: t =>
+    if wants_relay confirm m then
+      let '(cs1, done) := meta_confirm cs m in
+      let '(cs2, ev) := confirm_all confirm cs1 t in
+      (cs2, if done then EvRelay k m :: ev else ev)
+    else confirm_all confirm cs t
+  end.
+(* `for add { confirm }; for settled { confirm }` *)
+Definition relays_of (confirm : bool) (cs : list (N * N)) (f : inflight) : list (N * N) * list mevent :=
+  let '(cs1, e1) := confirm_all confirm cs (if_add f) in
+  let '(cs2, e2) := confirm_all confirm cs1 (if_settled f) in (cs2, e1 ++ e2).
 
 Definition ms_kill (st : mstore) : mstore :=
   {| ms_engine := ms_engine st; ms_persistent := ms_persistent st; ms_confirm := ms_confirm st;
      ms_db := if ms_persistent st then ms_db st else [];
-     ms_add := []; ms_upd := []; ms_del := []; ms_fly := None |}.
+     ms_add := []; ms_upd := []; ms_del := []; ms_fly := None; ms_counts := [] |}.
 
-Definition set_db (st : mstore) (db : kv msg) (fly : option inflight) : mstore :=
+Definition set_db (st : mstore) (db : kv msg) (fly : option inflight) (cs : list (N * N)) : mstore :=
   {| ms_engine := ms_engine st; ms_persistent := ms_persistent st; ms_confirm := ms_confirm st; ms_db := db;
-     ms_add := ms_add st; ms_upd := ms_upd st; ms_del := ms_del st; ms_fly := fly |}.
+     ms_add := ms_add st; ms_upd := ms_upd st; ms_del := ms_del st; ms_fly := fly; ms_counts := cs |}.
 
 Definition ms_swap (st : mstore) : mstore * list mevent :=
   match ms_fly st with
   | Some _ => (st, [])
   | None =>
     let f := {| if_stage := Swapped; if_add := cancel_add (ms_add st) (ms_del st);
-                if_upd := cancel_upd (ms_upd st) (ms_del st); if_del := cancel_del (ms_add st) (ms_del st) |} in
+                if_upd := cancel_upd (ms_upd st) (ms_del st); if_del := cancel_del (ms_add st) (ms_del st);
+                if_settled := settled_of (ms_add st) (ms_del st) |} in
     ({| ms_engine := ms_engine st; ms_persistent := ms_persistent st; ms_confirm := ms_confirm st; ms_db := ms_db st;
-        ms_add := []; ms_upd := []; ms_del := []; ms_fly := Some f |}, [])
+        ms_add := []; ms_upd := []; ms_del := []; ms_fly := Some f; ms_counts := ms_counts st |},
+     map (fun e => EvCancelled (fst e)) (if_settled f))
   end.
+
+Definition written (f : inflight) : inflight :=
+  {| if_stage := Written; if_add := if_add f; if_upd := if_upd f; if_del := if_del f; if_settled := if_settled f |}.
 
 (* the emission order of batch and relays follows the source (persist_confirm_after_batch) *)
 Definition ms_batch (st : mstore) : mstore * list mevent :=
@@ -138,11 +181,10 @@ Definition ms_batch (st : mstore) : mstore * list mevent :=
     match if_stage f with
     | Swapped =>
       let ops := batch_of f in
+      let '(cs, rel) := if persist_confirm_after_batch then (ms_counts st, []) else relays_of (ms_confirm st) (ms_counts st) f in
       match eng_batch (ms_engine st) (ms_db st) ops with
-      | Some db' =>
-        (set_db st db' (Some {| if_stage := Written; if_add := if_add f; if_upd := if_upd f; if_del := if_del f |}),
-         if persist_confirm_after_batch then [EvBatch ops] else relays_of (ms_confirm st) (if_add f) ++ [EvBatch ops])
-      | None => (ms_kill st, [EvPanic])       (* panic(err): the process dies *)
+      | Some db' => (set_db st db' (Some (written f)) cs, rel ++ [EvBatch ops])
+      | None => (ms_kill st, rel ++ [EvPanic])       (* panic(err): the process dies *)
       end
     | Written => (st, [])
     end
@@ -153,8 +195,9 @@ Definition ms_confirm_step (st : mstore) : mstore * list mevent :=
   match ms_fly st with
   | Some f =>
     match if_stage f with
-    | Written => (set_db st (ms_db st) None,
-                  if persist_confirm_after_batch then relays_of (ms_confirm st) (if_add f) else [])
+    | Written =>
+      let '(cs, rel) := if persist_confirm_after_batch then relays_of (ms_confirm st) (ms_counts st) f else (ms_counts st, []) in
+      (set_db st (ms_db st) None cs, rel)
     | Swapped => (st, [])
     end
   | None => (st, [])
@@ -163,7 +206,7 @@ Definition ms_confirm_step (st : mstore) : mstore * list mevent :=
 (* ---- API ---- *)
 Definition with_pending (st : mstore) (a u d : kv msg) : mstore :=
   {| ms_engine := ms_engine st; ms_persistent := ms_persistent st; ms_confirm := ms_confirm st; ms_db := ms_db st;
-     ms_add := a; ms_upd := u; ms_del := d; ms_fly := ms_fly st |}.
+     ms_add := a; ms_upd := u; ms_del := d; ms_fly := ms_fly st; ms_counts := ms_counts st |}.
 
 Definition ms_add_msg (st : mstore) (m : msg) (q : bytes) : mstore :=
   with_pending st (kv_set (ms_add st) (msg_key q (m_id m)) m) (ms_upd st) (ms_del st).
@@ -173,7 +216,7 @@ Definition ms_del_msg (st : mstore) (m : msg) (q : bytes) : mstore :=
   with_pending st (ms_add st) (ms_upd st) (kv_set (ms_del st) (msg_key q (m_id m)) m).
 (* PurgeQueue: engine-direct DeleteByPrefix; the pending maps are not touched (F41) *)
 Definition ms_purge (st : mstore) (q : bytes) : mstore :=
-  set_db st (eng_del_prefix (ms_engine st) (ms_db st) (msg_prefix_del q)) (ms_fly st).
+  set_db st (eng_del_prefix (ms_engine st) (ms_db st) (msg_prefix_del q)) (ms_fly st) (ms_counts st).
 
 Definition ms_iter_from (st : mstore) (q : bytes) (id limit : N) : list msg * N :=
   let '(r, n) := eng_iter_prefix_from (ms_engine st) (ms_db st) (msg_prefix_from q) (msg_from_key q id) limit in
@@ -206,6 +249,8 @@ Definition ms_step (st : mstore) (l : mlabel) : mstore * list mevent :=
   | MPersistBatch => ms_batch st
   | MPersistConfirm => ms_confirm_step st
   | MPersistTick => seq_steps ms_swap (seq_steps ms_batch ms_confirm_step) st
+  | MExtConfirm meta =>
+    (set_db st (ms_db st) (ms_fly st) (count_set (ms_counts st) meta (count_of (ms_counts st) meta + 1)), [])
   | MKill => (ms_kill st, [])
   end.
 
